@@ -4,7 +4,7 @@
      small d    payload shorter than 2^31 bytes    ps_ok ps    per-sector progress is 0 or >= 16 (header atomic)
      old_ok F   the old file is absent/empty or has at least the 16 header bytes
      0 < now    the clock at load time is positive *)
-From CppcmsV Require Import Base.Tac Base.Sweep C18.Defs C18.Proofs C18.Crash C18.History C18.Sid C18.Full C18.Link C18.Burst C18.Examples gen.Gen_crc.
+From CppcmsV Require Import Base.Tac Base.Sweep C18.Defs C18.Proofs C18.Crash C18.History C18.Sid C18.Full C18.Link C18.Burst C18.AnyOld C18.Planted C18.Clock C18.ShortWrite C18.ShortRead C18.Transparent C18.LinkSid C18.Examples gen.Gen_crc gen.Gen_C18_sid.
 Local Open Scope N_scope.
 
 (* ---- 1. crash safety: every crash state of every save over every old file ----
@@ -37,6 +37,31 @@ Theorem C18_crash_safe_property_family : forall now F t d p mask,
   res = None \/ res = Some (t, d) \/ res = read_from_file now F \/ collision now F t d res.
 Proof. exact crash_safe_family. Qed.
 Print Assumptions C18_crash_safe_property_family.
+
+(* ---- 1b. the same for EVERY old file (no hypothesis on F: planted garbage of 1..15 bytes included), when the old file is read
+   zero-padded to the 16 header bytes: the bytes between the end of a short old file and the first sector that reached the disk
+   are a hole.  pad16 F = F for the files of theorem 1. ---- *)
+Theorem C18_crash_safe_any_old : forall now F t d ps,
+  s64_ok t -> bytes_ok d -> small d -> ps_ok ps -> (0 < now)%Z ->
+  let res := read_from_file now (crash_file F (new_image t d) ps) in
+  res = None \/ res = Some (t, d) \/ res = read_from_file now (pad16 F) \/ collision now (pad16 F) t d res.
+Proof. exact crash_safe_any_old. Qed.
+Print Assumptions C18_crash_safe_any_old.
+
+Theorem C18_pad16_id : forall F, old_ok F -> pad16 F = F.
+Proof. exact pad16_id. Qed.
+Print Assumptions C18_pad16_id.
+
+(* the third disjunct is not harmless for a short old file (KNOWN FINDING short-garbage-header-completed-by-hole, replayed on the
+   real storage): a planted 12-byte file (deadline 5000, CRC field 0) is unreadable, but after a crashed save of a 600-byte value
+   of which only sector 1 reached the disk, load returns an EMPTY session with deadline 5000, which no save ever wrote *)
+Theorem C18_short_old_file_witness :
+  (length s_F = 12%nat /\ s64_ok 6000 /\ bytes_ok s_d /\ small s_d /\ ps_ok [0; 616] /\ (0 < 100)%Z) /\
+  read_from_file 100 s_F = None /\
+  read_from_file 100 (crash_file s_F (new_image 6000 s_d) [0; 616]) = Some (5000%Z, []) /\
+  read_from_file 100 (pad16 s_F) = Some (5000%Z, []).
+Proof. exact short_old_file_witness. Qed.
+Print Assumptions C18_short_old_file_witness.
 
 Theorem C18_crash_nothing_written : forall F new, crash_file F new [] = F.
 Proof. exact crash_none_is_old. Qed.
@@ -92,12 +117,23 @@ Example C18_burst_nonvacuous :
   crc32 ([1] ++ [2; 3; 4; 5] ++ [6]) <> crc32 ([1] ++ [2; 3; 4; 6] ++ [6]).
 Proof. exact ex_C18_burst_nonvacuous. Qed.
 
-(* ---- 3. what load returns lies inside the file and has the length of the header ---- *)
+(* ---- 3. what load returns has the length of the header and fits into the file (for every value of the size field: the
+   size field is compared with the file length before anything is allocated or read); below 2 GiB it is cut from the file ---- *)
 Theorem C18_read_in_bounds : forall now f t' d', read_from_file now f = Some (t', d') ->
   (16 <= length f)%nat /\ N.of_nat (length d') = hdr_size f /\ crc32 d' = hdr_crc f /\ (now <= t')%Z /\
-  (hdr_size f < 2 ^ 31 -> (16 + length d' <= length f)%nat /\ d' = firstn (length d') (skipn 16 f)).
+  (16 + length d' <= length f)%nat /\
+  (hdr_size f < 2 ^ 31 -> d' = firstn (length d') (skipn 16 f)).
 Proof. exact read_in_bounds. Qed.
 Print Assumptions C18_read_in_bounds.
+
+(* a record whose size field exceeds what the file holds behind the header is refused, whatever else it contains *)
+Theorem C18_read_unfit : forall now f, size_fits f = false -> read_from_file now f = None.
+Proof. exact read_unfit. Qed.
+Print Assumptions C18_read_unfit.
+
+Theorem C18_size_fits_spec : forall f, size_fits f = true <-> (16 <= length f)%nat /\ hdr_size f <= N.of_nat (length f - 16).
+Proof. exact size_fits_spec. Qed.
+Print Assumptions C18_size_fits_spec.
 
 (* ---- 4. no crash: save then load returns the value while it is alive, over any old file ---- *)
 Theorem C18_save_then_load : forall now F t d,
@@ -105,6 +141,52 @@ Theorem C18_save_then_load : forall now F t d,
   read_from_file now (save_file F t d) = if (t <? now)%Z then None else Some (t, d).
 Proof. exact save_then_read. Qed.
 Print Assumptions C18_save_then_load.
+
+(* ---- 4b. write_all / read_all with short transfers (the j-th write() / data read() call transfers at most acc_j bytes).  The loops
+   advance their buffer pointer (repaired in /repo 74c63d5: defects short-write-corrupt-record, short-read-live-session-removed), so
+   for EVERY cut pattern a save made of short writes stores exactly the record of the completed save, and a load over short reads
+   returns exactly what the plain load returns ---- *)
+Theorem C18_short_image_eq : forall t d acc, short_image t d acc = new_image t d.
+Proof. exact short_image_eq. Qed.
+Print Assumptions C18_short_image_eq.
+
+Theorem C18_save_short_eq : forall nm t data acc d, save_short nm t data acc d = save nm t data d.
+Proof. exact save_short_eq. Qed.
+Print Assumptions C18_save_short_eq.
+
+Theorem C18_short_save_then_load : forall now F t d acc,
+  s64_ok t -> bytes_ok d -> small d ->
+  read_from_file now (save_file_short F t d acc) = if (t <? now)%Z then None else Some (t, d).
+Proof. exact short_save_then_load. Qed.
+Print Assumptions C18_short_save_then_load.
+
+Theorem C18_read_short_eq : forall now f acc, read_from_file_short now f acc = read_from_file now f.
+Proof. exact read_from_file_short_eq. Qed.
+Print Assumptions C18_read_short_eq.
+
+Theorem C18_load_short_eq : forall now nm acc d, load_short now nm acc d = load now nm d.
+Proof. exact load_short_eq. Qed.
+Print Assumptions C18_load_short_eq.
+
+(* regression Examples (the old witnesses, corpus/C18/regress.case): with the loops as they were (save_file_stuck, read_from_file_gen
+   false) the empty value came back with deadline 3000 + 3000 * 2^32, "hi" was stored as "hh" and lost, and the live record of "hi"
+   failed the CRC test after a short read; with the loops as they are all three come back exactly.  The cut pattern is not vacuous:
+   the save really is made of 4 write() calls *)
+Example C18_short_write_regression :
+  read_from_file 1000 (save_file_stuck [] 3000 [] [4%nat]) = Some (12884901891000%Z, []) /\
+  read_from_file 1000 (save_file_short [] 3000 [] [4%nat]) = Some (3000%Z, []) /\
+  read_from_file 1000 (save_file_stuck [] 3000 [104; 105] [0%nat; 1%nat]) = None /\
+  read_from_file 1000 (save_file_short [] 3000 [104; 105] [0%nat; 1%nat]) = Some (3000%Z, [104; 105]) /\
+  short_chunks 3000 [104; 105] [7%nat; 0%nat; 1%nat] <> short_chunks 3000 [104; 105] [] /\
+  length (short_chunks 3000 [104; 105] [7%nat; 0%nat; 1%nat]) = 4%nat.
+Proof. exact short_write_regression. Qed.
+
+Example C18_short_read_regression :
+  read_from_file 1000 r_f = Some (3000%Z, [104; 105]) /\
+  read_from_file_gen false 1000 r_f [1%nat] = None /\
+  read_from_file_short 1000 r_f [1%nat] = Some (3000%Z, [104; 105]) /\
+  load_short 1000 (repeat 97 32) [1%nat] [(repeat 97 32, r_f)] = (Some (3000%Z, [104; 105]), [(repeat 97 32, r_f)]).
+Proof. exact short_read_regression. Qed.
 
 (* ---- 5. histories: any sequence of saves, crashed saves, removes, loads and gc runs ---- *)
 Theorem C18_history_load : forall ops now t' d',
@@ -136,6 +218,72 @@ Example C18_history_nonvacuous :
   Forall op_ok ex_ops /\ read_from_file 100 (cur (run ex_ops)) = Some (6000%Z, w_mix) /\
   In (6000%Z, w_new) (saves_of ex_ops).
 Proof. exact ex_C18_history_nonvacuous. Qed.
+
+(* ---- 5b. histories that start from an ARBITRARY planted file G (garbage with a well-formed name), gc at any point:
+   whatever is returned carries the deadline, length and CRC of a save of the history or the three header fields of the planted
+   file read zero-padded; and the crash theorem applies at every point (it has no hypothesis on the old file) ---- *)
+Theorem C18_history_load_from : forall G ops now t' d',
+  Forall op_ok ops -> (0 < now)%Z ->
+  read_from_file now (cur (run_from (Some G) ops)) = Some (t', d') ->
+  (exists t d, In (t, d) (saves_of ops) /\ t' = t /\ (now <= t)%Z /\ length d' = length d /\ crc32 d' = crc32 d) \/
+  (t' = hdr_deadline (pad16 G) /\ (now <= t')%Z /\ N.of_nat (length d') = hdr_size (pad16 G) /\ crc32 d' = hdr_crc (pad16 G)).
+Proof. exact history_load_from. Qed.
+Print Assumptions C18_history_load_from.
+
+Theorem C18_history_crash_safe_from : forall G ops now t d ps,
+  op_ok (OCrash t d ps) -> (0 < now)%Z ->
+  let F := cur (run_from (Some G) ops) in
+  let res := read_from_file now (cur (run_from (Some G) (ops ++ [OCrash t d ps]))) in
+  res = None \/ res = Some (t, d) \/ res = read_from_file now (pad16 F) \/ collision now (pad16 F) t d res.
+Proof. exact history_crash_safe_from. Qed.
+Print Assumptions C18_history_crash_safe_from.
+
+Example C18_planted_nonvacuous :
+  Forall op_ok pl_ops /\ read_from_file 100 (cur (run_from (Some s_F) pl_ops)) = Some (5000%Z, []) /\
+  hdr_deadline (pad16 s_F) = 5000%Z /\ hdr_size (pad16 s_F) = 0 /\ hdr_crc (pad16 s_F) = crc32 [] /\
+  run_from (Some s_F) [OLoad 100] = None.
+Proof. exact planted_nonvacuous. Qed.
+
+(* ---- 5c. histories that also contain saves made of short writes and loads over short reads (xop, any cut patterns), from no
+   file or from an arbitrary planted file: both are transparent, so the history theorems carry over by erasing the cut patterns ---- *)
+Theorem C18_xrun_erase : forall xs s0, xrun_from s0 xs = run_from s0 (map erase xs).
+Proof. exact xrun_erase. Qed.
+Print Assumptions C18_xrun_erase.
+
+Theorem C18_xhistory_load : forall xs now t' d',
+  Forall xop_ok xs -> (0 < now)%Z ->
+  read_from_file now (cur (xrun_from None xs)) = Some (t', d') ->
+  exists t d, In (t, d) (saves_of (map erase xs)) /\ t' = t /\ (now <= t)%Z /\ length d' = length d /\ crc32 d' = crc32 d.
+Proof. exact xhistory_load. Qed.
+Print Assumptions C18_xhistory_load.
+
+Theorem C18_xhistory_load_from : forall G xs now t' d',
+  Forall xop_ok xs -> (0 < now)%Z ->
+  read_from_file now (cur (xrun_from (Some G) xs)) = Some (t', d') ->
+  (exists t d, In (t, d) (saves_of (map erase xs)) /\ t' = t /\ (now <= t)%Z /\ length d' = length d /\ crc32 d' = crc32 d) \/
+  (t' = hdr_deadline (pad16 G) /\ (now <= t')%Z /\ N.of_nat (length d') = hdr_size (pad16 G) /\ crc32 d' = hdr_crc (pad16 G)).
+Proof. exact xhistory_load_from. Qed.
+Print Assumptions C18_xhistory_load_from.
+
+Theorem C18_xhistory_crash_safe : forall s0 xs now t d ps,
+  op_ok (OCrash t d ps) -> (0 < now)%Z ->
+  let F := cur (xrun_from s0 xs) in
+  let res := read_from_file now (cur (xrun_from s0 (xs ++ [XOp (OCrash t d ps)]))) in
+  res = None \/ res = Some (t, d) \/ res = read_from_file now (pad16 F) \/ collision now (pad16 F) t d res.
+Proof. exact xhistory_crash_safe. Qed.
+Print Assumptions C18_xhistory_crash_safe.
+
+Theorem C18_xhistory_save_load : forall s0 xs now t d acc racc,
+  s64_ok t -> bytes_ok d -> small d ->
+  read_from_file_short now (cur (xrun_from s0 (xs ++ [XSaveShort t d acc]))) racc = if (t <? now)%Z then None else Some (t, d).
+Proof. exact xhistory_save_load. Qed.
+Print Assumptions C18_xhistory_save_load.
+
+Example C18_xhistory_nonvacuous :
+  Forall xop_ok x_ops /\ read_from_file 100 (cur (xrun_from None x_ops)) = Some (6000%Z, w_mix) /\
+  In (6000%Z, w_new) (saves_of (map erase x_ops)) /\
+  xrun_from None [XSaveShort 5000 w_old [3%nat; 5%nat; 0%nat; 2%nat]; XLoadShort 100 [1%nat; 1%nat]] = Some w_F.
+Proof. exact xhistory_nonvacuous. Qed.
 
 (* ---- 6. gc and load on a directory ---- *)
 Theorem C18_gc_exact : forall now d nm f,
@@ -170,12 +318,44 @@ Theorem C18_load_spec : forall now nm d,
 Proof. exact load_spec. Qed.
 Print Assumptions C18_load_spec.
 
+(* ---- 6a. the clock only moves forward: a gc run or a load at ANY earlier point never takes away a session that a later load
+   would have returned (one file and directory form) ---- *)
+Theorem C18_read_clock_mono : forall now now' f r,
+  read_from_file now f = Some r -> (now' <= now)%Z -> read_from_file now' f = Some r.
+Proof. exact read_clock_mono. Qed.
+Print Assumptions C18_read_clock_mono.
+
+Theorem C18_gc_transparent : forall s now now', (now' <= now)%Z ->
+  read_from_file now (cur (step s (OGc now'))) = read_from_file now (cur s).
+Proof. exact gc_transparent. Qed.
+Print Assumptions C18_gc_transparent.
+
+Theorem C18_load_transparent : forall s now now', (now' <= now)%Z ->
+  read_from_file now (cur (step s (OLoad now'))) = read_from_file now (cur s).
+Proof. exact load_transparent. Qed.
+Print Assumptions C18_load_transparent.
+
+Theorem C18_gc_keeps_later : forall now now' d nm f r,
+  lookup nm d = Some f -> read_from_file now f = Some r -> (now' <= now)%Z -> lookup nm (gc now' d) = Some f.
+Proof. exact gc_keeps_later. Qed.
+Print Assumptions C18_gc_keeps_later.
+
+Theorem C18_load_keeps_later : forall now now' d nm k f r,
+  lookup k d = Some f -> read_from_file now f = Some r -> (now' <= now)%Z -> lookup k (snd (load now' nm d)) = Some f.
+Proof. exact load_keeps_later. Qed.
+Print Assumptions C18_load_keeps_later.
+
 Example C18_gc_nonvacuous :
   valid_name nmA = true /\ valid_name nmB = true /\ valid_name nmX = false /\
   lookup nmA (gc 100 ex_dir) = Some w_F /\ lookup nmB ex_dir <> None /\ lookup nmB (gc 100 ex_dir) = None /\
   lookup nmX (gc 100 ex_dir) = Some [1; 2; 3] /\
   fst (load 100 nmA ex_dir) = Some (5000%Z, w_old) /\ fst (load 100 nmB ex_dir) = None.
 Proof. exact ex_C18_gc_nonvacuous. Qed.
+
+Example C18_clock_nonvacuous :
+  lookup nmA (gc 100 ex_dir) = Some w_F /\ read_from_file 5000 w_F = Some (5000%Z, w_old) /\ read_from_file 5001 w_F = None /\
+  lookup nmA (gc 5001 ex_dir) = None.
+Proof. repeat split; vm_compute; reflexivity. Qed.
 
 (* ---- 6b. session_sid in front of the storage ---- *)
 Theorem C18_valid_sid_name : forall cookie id, valid_sid cookie = Some id ->
@@ -199,28 +379,54 @@ Example C18_sid_nonvacuous :
   fst (sid_load 100 (73 :: nmA) ex_dir) = Some (5000%Z, w_old) /\ fst (sid_load 5001 (73 :: nmA) ex_dir) = None.
 Proof. exact ex_C18_sid_nonvacuous. Qed.
 
-(* ---- 6c. the buffer allocated from the size field (KNOWN FINDING garbage-size-field-bad-alloc) ---- *)
-(* after any history of saves and crashed saves the size field is 0 or the length of a saved payload *)
+(* ---- 6c. the buffer allocated from the size field (defect garbage-size-field-bad-alloc, repaired in /repo c47a865:
+   the size field is compared with fstat().st_size - 16 before std::vector<char> buffer(size,0)) ---- *)
+(* for EVERY file, garbage included, the loader never asks for more memory than the file holds behind its header *)
+Theorem C18_alloc_le_file : forall now f, alloc_size now f <= N.of_nat (length f - 16).
+Proof. exact alloc_le_file. Qed.
+Print Assumptions C18_alloc_le_file.
+
+(* when load returns a value the buffer was exactly as long as that value *)
+Theorem C18_alloc_exact : forall now f t' d', read_from_file now f = Some (t', d') -> alloc_size now f = N.of_nat (length d').
+Proof. exact alloc_exact. Qed.
+Print Assumptions C18_alloc_exact.
+
+(* hence load under a memory limit is the plain load (value, or no session and the file removed) as soon as the limit
+   covers the file itself; it throws only for a file longer than the memory available *)
+Theorem C18_load_limited_file_enough : forall limit now nm d f,
+  lookup nm d = Some f -> N.of_nat (length f - 16) <= limit ->
+  load_limited limit now nm d =
+    match load now nm d with (Some (t, x), d') => (LSome t x, d') | (None, d') => (LNone, d') end.
+Proof. exact load_limited_file_enough. Qed.
+Print Assumptions C18_load_limited_file_enough.
+
+Theorem C18_load_limited_exc : forall limit now nm d d',
+  load_limited limit now nm d = (LExc, d') -> exists f, lookup nm d = Some f /\ limit + 16 < N.of_nat (length f) /\ d' = d.
+Proof. exact load_limited_exc. Qed.
+Print Assumptions C18_load_limited_exc.
+
+(* after any history of saves and crashed saves the request is 0 or the length of a saved payload *)
 Theorem C18_history_alloc_ok : forall ops limit now,
   Forall op_ok ops -> (forall t d, In (t, d) (saves_of ops) -> N.of_nat (length d) <= limit) ->
   alloc_fails limit now (cur (run ops)) = false.
 Proof. exact history_alloc_ok. Qed.
 Print Assumptions C18_history_alloc_ok.
 
-(* ... but a planted 19-byte file asks for 2 GiB: with 1 GiB available load throws, returns nothing, removes nothing,
-   and gc keeps the file; the statement that load always answers (value or no session, file removed) is refuted *)
-Theorem C18_garbage_alloc_refuted :
-  length g_file = 19%nat /\ alloc_fails (2 ^ 30) 1000 g_file = true /\ timestamp_ok 1000 g_file = true /\
-  forall nm, load_limited (2 ^ 30) 1000 nm [(nm, g_file)] = (LExc, [(nm, g_file)]).
-Proof. exact garbage_alloc_witness. Qed.
-Print Assumptions C18_garbage_alloc_refuted.
+(* regression Example (the old counterexample, corpus/C18/regress.case): the planted 19-byte file with a 2 GiB size field.  The
+   unchecked reader asked for 2 GiB; now nothing is requested, load answers no session and removes the file under any limit *)
+Example C18_garbage_alloc_regression :
+  length g_file = 19%nat /\ timestamp_ok 1000 g_file = true /\
+  alloc_size_unchecked 1000 g_file = 2147483632 /\ alloc_size 1000 g_file = 0 /\
+  forall limit nm, load_limited limit 1000 nm [(nm, g_file)] = (LNone, []).
+Proof. exact garbage_alloc_regression. Qed.
 
-Theorem C18_load_limited_enough : forall limit now nm d f,
-  lookup nm d = Some f -> hdr_size f <= limit ->
-  load_limited limit now nm d =
-    match load now nm d with (Some (t, x), d') => (LSome t x, d') | (None, d') => (LNone, d') end.
-Proof. exact load_limited_enough. Qed.
-Print Assumptions C18_load_limited_enough.
+(* non-vacuity: a record followed by trailing bytes is still accepted (the test is against the file length), the buffer is
+   its 3 bytes; cut 1 byte short it is refused without allocation where the unchecked reader allocated first *)
+Example C18_alloc_nonvacuous :
+  length g_ok = 21%nat /\ read_from_file 1000 g_ok = Some (5000%Z, [97; 98; 99]) /\ alloc_size 1000 g_ok = 3 /\
+  read_from_file 1000 (firstn 18 g_ok) = None /\ alloc_size 1000 (firstn 18 g_ok) = 0 /\
+  alloc_size_unchecked 1000 (firstn 18 g_ok) = 3.
+Proof. exact trailing_bytes_accepted. Qed.
 
 (* ---- 7. tie: the CRC table found in private/crc32.h is the table of the bit model, and the
    byte-at-a-time loop of Crc32_ComputeBuf over it computes the model's crc32 ---- *)
@@ -239,3 +445,18 @@ Print Assumptions C18_link_crc32.
 Example C18_link_crc32_nonvacuous :
  g_crc32 [49; 50; 51; 52; 53; 54; 55; 56; 57] = 3421780262 /\ crc32 w_new = crc32 w_mix.
 Proof. exact ex_C18_link_crc32_nonvacuous. Qed.
+
+(* ---- 7b. tie: the per-character test of session_sid::valid_sid found in src/session_sid.cpp is the model's test on every byte
+   (signed char included), and valid_sid over the generated test accepts exactly the cookies the model accepts ---- *)
+Theorem C18_link_low_xdigit : forall b, b < 256 -> g_c18_low_x_digit (Z.of_N b) = is_low_xdigit b.
+Proof. exact link_low_xdigit. Qed.
+Print Assumptions C18_link_low_xdigit.
+
+Theorem C18_link_valid_sid : forall cookie, bytes_ok cookie -> valid_sid_gen cookie = valid_sid cookie.
+Proof. exact link_valid_sid. Qed.
+Print Assumptions C18_link_valid_sid.
+
+Example C18_link_sid_nonvacuous :
+  g_c18_low_x_digit 102 = true /\ g_c18_low_x_digit 103 = false /\ g_c18_low_x_digit 70 = false /\ g_c18_low_x_digit 225 = false /\
+  valid_sid_gen (73 :: nmA) = Some nmA.
+Proof. repeat split; vm_compute; reflexivity. Qed.
